@@ -59,7 +59,8 @@ def run(chk, scratch):
         def write_parts(name, assign, k):
             files = []
             for fi in range(k):
-                p = os.path.join(d, "%s_%d.bam" % (name, fi))
+                # the files of one partition have names outside ASCII (file names become read-group labels of a multi-file experiment)
+                p = os.path.join(d, ("r\u00e9plicat_\u03b1_%d.bam" % fi) if name == "bychrom" else ("%s_%d.bam" % (name, fi)))
                 # unmapped records are spread over the files (none in the first file of the 'twins-apart' partition)
                 um = unmapped[fi::k] if name != "twins-apart" else (unmapped if fi == k - 1 else [])
                 rs = [r for r in mapped if assign(r) == fi] + um
